@@ -106,6 +106,10 @@ func RunC01(c *Ctx, r *Report) {
 	for _, fn := range []*ssa.Function{a.EncodeEncrypt, a.DecodeDecrypt, a.encryptMsg, a.decryptMsg, a.encryptPayload, a.decryptPayload, a.calculateIntegrity, a.verifyIntegrity} {
 		r.Func(c.FuncName(fn))
 	}
+	c.protectTotality(r, prefix)
+	ruleH := prefix + "mac-stateless"
+	r.Rule(ruleH, "the checksum of a message is a function of the message alone: every hash Write in calculateIntegrity is preceded by Reset on the same object on every path (the integrity objects are long-lived; Sum does not reset them)", 2)
+	c.hashTypestate(r, ruleH, a.calculateIntegrity)
 	// rule 1
 	c.keyDirectionRules(r, prefix, a)
 	// rule 2
